@@ -315,14 +315,17 @@ def gen_capture_set(rng, name, regime):
     return cs
 
 
-def cut_files(rng, cs, mode="contig", nfiles=None):
+def cut_files(rng, cs, mode="contig", nfiles=None, cuts=None):
     """contig: cut the global sequence into 1-5 consecutive files named in cut order.
     flowsplit: every conversation goes to one file (overlapping time ranges, names shuffled)."""
     n = len(cs.packets)
     nfiles = nfiles or rng.choice([1, 2, 2, 3, 3, 4, 5])
     nfiles = max(1, min(nfiles, n))
     if mode == "contig":
-        cuts = sorted(rng.sample(range(1, n), nfiles - 1)) if nfiles > 1 else []
+        if cuts is None:
+            cuts = sorted(rng.sample(range(1, n), nfiles - 1)) if nfiles > 1 else []
+        cuts = sorted(set(c for c in cuts if 0 < c < n))
+        nfiles = len(cuts) + 1
         cs.files = ["c%d.pcap" % i for i in range(nfiles)]
         cs.assign, f = [], 0
         for i in range(n):
@@ -596,7 +599,8 @@ def wrap_dirs(conv):
     out = set()
     for d in "cs":
         seqs = [p["seq"] for p in conv.pkts if p["dir"] == d]
-        if seqs and max(seqs) - min(seqs) > (1 << 31):
+        ends = [p["seq"] + len(p["data"]) + 1 for p in conv.pkts if p["dir"] == d]
+        if seqs and (max(seqs) - min(seqs) > (1 << 31) or max(ends) >= (1 << 32)):
             out.add(d)
     return out
 
